@@ -1,6 +1,8 @@
 package main
 
 import (
+	"fmt"
+
 	"verif/harness/abs"
 	"verif/harness/exec"
 	"verif/harness/gen"
@@ -36,7 +38,28 @@ func mutate(g *gen.G, b []byte) []byte {
 	if len(b) == 0 {
 		return randBytes(g, g.Int(0, 8))
 	}
-	switch g.R.Intn(12) {
+	switch g.R.Intn(14) {
+	case 12: // a dictionary token written over the packet at some offset
+		if len(gen.Dict) > 0 {
+			t := gen.Dict[g.R.Intn(len(gen.Dict))]
+			if len(b) >= len(t) {
+				i := g.R.Intn(len(b) - len(t) + 1)
+				if g.Bool() {
+					i -= i % 4
+				}
+				copy(b[i:], t)
+			}
+		}
+	case 13: // a dictionary token inserted, the length field adjusted if the result is aligned
+		if len(gen.Dict) > 0 && len(b) >= 4 {
+			t := gen.Dict[g.R.Intn(len(gen.Dict))]
+			i := 4 + g.R.Intn(len(b)-3)
+			b = append(b[:i:i], append(append([]byte(nil), t...), b[i:]...)...)
+			if len(b)%4 == 0 {
+				l := len(b)/4 - 1
+				b[2], b[3] = byte(l>>8), byte(l)
+			}
+		}
 	case 0: // truncate
 		return b[:g.R.Intn(len(b))]
 	case 1: // extend
@@ -287,10 +310,39 @@ func driveCPRand(s *exec.State, g *gen.G, n int) {
 		}
 		return abs.V{"k": "SDES", "chunks": cs}
 	}
+	// several chunks with a CNAME each; the sources are drawn from the SSRCs already used by the
+	// compound's earlier members (so that "the chunk of the sender" exists) and fresh ones
+	sdesMulti := func(prev abs.L) abs.V {
+		pool := abs.L{g.U32(), g.U32()}
+		for _, p := range prev {
+			if m, ok := p.(abs.V); ok {
+				if x, ok := m["ssrc"]; ok {
+					pool = append(pool, x)
+				}
+			}
+		}
+		nc := g.Int(2, 4)
+		cs := make(abs.L, nc)
+		for c := range cs {
+			items := abs.L{}
+			if g.R.Intn(3) == 0 {
+				items = append(items, abs.V{"t": g.Pick(2, 6, 8), "text": g.Text(g.Int(0, 4))})
+			}
+			if g.R.Intn(4) != 0 {
+				items = append(items, abs.V{"t": 1, "text": abs.L{65 + c, 64, 104}})
+			}
+			cs[c] = abs.V{"src": pool[g.R.Intn(len(pool))], "items": items}
+		}
+		return abs.V{"k": "SDES", "chunks": cs}
+	}
 	for i := 0; i < n; i++ {
 		k := g.Pick(1, 2, 2, 3, 3, 4, 5, 6, 8, 12)
 		pk := make(abs.L, 0, k)
 		for j := 0; j < k; j++ {
+			if j > 0 && g.R.Intn(5) == 0 {
+				pk = append(pk, sdesMulti(pk))
+				continue
+			}
 			switch {
 			case j == 0 && g.R.Intn(8) != 0:
 				if g.Bool() {
@@ -598,6 +650,131 @@ func init() {
 				s.Datagram(4, 8)
 				s.Datagram(1, 3)
 			}
+		}
+	}
+}
+
+// dict: every dictionary token (package dict) in every free-form octet field of every kind that has
+// one, and written over every word of a small valid packet of every kind (C04, C07, C09, C17).
+func init() {
+	drivers["dict"] = func(s *exec.State, g *gen.G, n int) {
+		toL := func(b []byte) abs.L {
+			out := make(abs.L, len(b))
+			for i, x := range b {
+				out[i] = int(x)
+			}
+			return out
+		}
+		cat := func(xs ...abs.L) abs.L {
+			var out abs.L
+			for _, x := range xs {
+				out = append(out, x...)
+			}
+			return out
+		}
+		abc := abs.L{97, 98, 99}
+		for _, tk := range gen.Dict {
+			t := toL(tk)
+			texts := []abs.L{t, cat(t, abc), cat(abc, t), cat(t, t), cat(abs.L{len(t)}, t), cat(abs.L{len(t) + 1}, t), cat(t, abs.L{0})}
+			for _, tx := range texts {
+				for _, typ := range []int{1, 2, 7, 8} {
+					scriptRT(s, abs.V{"k": "SDES", "chunks": abs.L{abs.V{"src": abs.L{1, 2, 3, 4}, "items": abs.L{abs.V{"t": typ, "text": tx}, abs.V{"t": 6, "text": abc}}}}})
+				}
+				scriptRT(s, abs.V{"k": "BYE", "srcs": abs.L{abs.L{1, 2, 3, 4}}, "reason": tx})
+				scriptRT(s, abs.V{"k": "APP", "st": 1, "ssrc": abs.L{1, 2, 3, 4}, "name": abs.L{78, 65, 77, 69}, "data": tx})
+			}
+			if len(tk) == 4 {
+				scriptRT(s, abs.V{"k": "APP", "st": 1, "ssrc": abs.L{1, 2, 3, 4}, "name": t, "data": abc})
+			}
+		}
+		// overlays: tokens of up to 4 octets at every word of one small packet per kind
+		g2 := gen.New(7)
+		for _, kind := range g2.Kinds() {
+			var base []byte
+			for try := 0; try < 50 && (base == nil || len(base) > 40); try++ {
+				base = encodeWith(g2.Of(kind))
+			}
+			if base == nil {
+				continue
+			}
+			for _, tk := range gen.Dict {
+				if len(tk) > 4 || len(tk) < 2 {
+					continue
+				}
+				for off := 4; off+len(tk) <= len(base); off += 4 {
+					b := append([]byte(nil), base...)
+					copy(b[off:], tk)
+					scriptOwn(s, b, kind)
+				}
+			}
+		}
+	}
+}
+
+// soak: process-lifetime state (C01, C18: "the package keeps no mutable shared state"). For every kind,
+// n distinct valid packets (distinct SSRCs, distinct texts) are decoded in this one process; a reference
+// packet of the kind goes through the recorded, judged script before and after, and so does every 5000th
+// packet of the stream. A call that stops returning after the Nth distinct input ends the run as a hang.
+func init() {
+	drivers["soak"] = func(s *exec.State, g *gen.G, n int) {
+		stamp := func(v abs.V, i int) {
+			id := abs.U32(uint32(i)*2654435761 + 12345)
+			for _, f := range []string{"ssrc", "sender", "media"} {
+				if _, ok := v[f]; ok {
+					v[f] = id
+				}
+			}
+			txt := abs.L{}
+			for _, c := range fmt.Sprintf("u%07x@h", i) {
+				txt = append(txt, int(c))
+			}
+			switch v["k"] {
+			case "SDES":
+				cs := abs.List(v["chunks"])
+				if len(cs) > 30 {
+					cs = cs[:30]
+				}
+				v["chunks"] = append(abs.L{abs.V{"src": id, "items": abs.L{abs.V{"t": 1, "text": txt}, abs.V{"t": 2 + i%7, "text": txt}}}}, cs...)
+			case "BYE":
+				v["reason"] = txt
+			case "APP":
+				v["data"] = txt
+			}
+		}
+		kinds := append([]string{}, g.Kinds()...)
+		for _, kind := range kinds {
+			var ref []byte
+			for try := 0; try < 50 && ref == nil; try++ {
+				ref = encodeWith(g.Of(kind))
+			}
+			if ref == nil {
+				continue
+			}
+			scriptOwn(s, ref, kind)
+			budget := n
+			switch kind {
+			case "TWCC", "CCFB", "XR":
+				budget = n / 10 // their lists cannot be cut without recomputing dependent fields
+			}
+			for i := 0; i < budget; i++ {
+				v := g.Of(kind)
+				for _, f := range []string{"reports", "chunks", "srcs", "nacks", "sli", "fir", "ssrcs"} {
+					if l, ok := v[f].(abs.L); ok && len(l) > 2 {
+						v[f] = l[:2]
+					}
+				}
+				stamp(v, i)
+				b := encodeWith(v)
+				if b == nil {
+					continue
+				}
+				if s.QuietDecode(kind, b, func() string { return fmt.Sprintf("soak: %s packet number %d of this process: %v", kind, i, b) }) || i%5000 == 4999 {
+					scriptOwn(s, b, kind)
+				}
+			}
+			// the reference packet again, marked so that it is not taken for a duplicate of the first case
+			scriptOwn(s, ref, kind)
+			s.SetBuf(9, []byte("after soak "+kind))
 		}
 	}
 }
